@@ -50,7 +50,7 @@ class Float(float, AnyAtomicType):
                         return float_nan
                     except NameError:
                         pass
-            elif value.lower() in INVALID_NUMERIC:
+            elif value.lower() in INVALID_NUMERIC or cls.pattern.match(value) is None:
                 raise cls._invalid_value(value)
         elif math.isnan(value):
             try:
